@@ -179,6 +179,46 @@ deep(3)
 '''
 
 
+def gomod_calls_program():
+    """calls every function that the Go modules sys, math, string, binascii and marshal of the CURRENT tree export (names read from their sources), with a few
+    argument shapes incl. strings that were never seen before; prints how many calls returned / raised per module.  Whatever a module keeps between calls
+    (caches, tables, counters) is exercised from every context at once in the concurrent rounds."""
+    import glob
+    mods = {}
+    for m in ('sys', 'math', 'string', 'binascii', 'marshal'):
+        names = set()
+        for f in glob.glob(os.path.join(common.REPO, 'stdlib', m, '*.go')):
+            if f.endswith('_test.go'):
+                continue
+            names.update(re.findall(r'MustNewMethod\("([A-Za-z_][A-Za-z_0-9]*)"', open(f, errors='replace').read()))
+        mods[m] = sorted(n for n in names if n not in ('exit', '_exit', 'setrecursionlimit', 'settrace', 'setprofile', 'breakpointhook', 'displayhook', 'excepthook'))
+    src = 'MODS = %r\n' % mods + '''n = 0
+for mn in sorted(MODS):
+    try:
+        m = __import__(mn)
+    except ImportError:
+        print(mn, "missing")
+        continue
+    ok = 0
+    bad = 0
+    for fn in MODS[mn]:
+        try:
+            f = getattr(m, fn)
+        except AttributeError:
+            continue
+        for k in range(6):
+            n += 1
+            shapes = [(), ("fresh-" + mn + "-" + fn + "-" + str(n),), (n,), ("a", "b"), (1.5,), ("fresh2-" + str(n) + str(k), n)]
+            try:
+                f(*shapes[k])
+                ok += 1
+            except:
+                bad += 1
+    print(mn, ok, bad)
+'''
+    return src
+
+
 def obs_of(g, pfx=''):
     if g is None:
         return None
@@ -200,6 +240,7 @@ def run(tier, rep):
     for i in range(8 if tier == 'quick' else 40):
         gen_obs['gen%d' % i] = progen.program(r, maxdepth=3, nstmts=3)
     observers = dict(OBSERVERS)
+    observers['gomod.calls'] = gomod_calls_program()
     observers.update(gen_obs)
     # ---- solo observations: one fresh process per program --------------------------------------------------------
     solo_cases = [{'id': 'solo:' + k, 'src': v} for k, v in observers.items()] + [{'id': 'solo:P:' + k, 'src': v} for k, v in POLLUTERS.items()] + [{'id': 'solo:shared', 'src': SHARED}]
